@@ -147,6 +147,9 @@ func recordNames(argv []string) int {
 	return 0
 }
 
+// replayExtraOverlay: source replacements of a selftest run (--overlay), handed on to replays.
+var replayExtraOverlay map[string]string
+
 func verify(argv []string) int {
 	fs := flag.NewFlagSet("verify", flag.ExitOnError)
 	prop := fs.String("property", "", "property id")
@@ -253,6 +256,7 @@ func verify(argv []string) int {
 			return undecided("overlay: %v", err)
 		}
 		overlay = map[string][]byte{}
+		replayExtraOverlay = m
 		for k, v := range m {
 			c, err := os.ReadFile(v)
 			if err != nil {
@@ -738,7 +742,12 @@ func runReplay(verif, repo string, tpl *replayTemplate, wit map[string]interface
 	if !filepath.IsAbs(file) {
 		file = filepath.Join(verif, file)
 	}
-	ovj, _ := json.Marshal(map[string]interface{}{"Replace": map[string]string{filepath.Join(repo, tpl.Pkg, filepath.Base(file)): file}})
+	repl := map[string]string{filepath.Join(repo, tpl.Pkg, filepath.Base(file)): file}
+	// selftest mode: the mutated sources are an overlay, the replay must run on them too
+	for k, v := range replayExtraOverlay {
+		repl[k] = v
+	}
+	ovj, _ := json.Marshal(map[string]interface{}{"Replace": repl})
 	os.WriteFile(ov, ovj, 0o644)
 	defer os.Remove(ov)
 	cmd := exec.Command("go", "test", "-overlay", ov, "-vet=off", "-count=1", "-timeout", "120s", "-run", tpl.Run, "-v", "./"+tpl.Pkg+"/")
